@@ -399,7 +399,7 @@ def draw_case(d, kinds=None, *, degenerate=False, general_position=False,
               init_kinds=('dirichlet', 'onehot', 'uniform', 'blurred'),
               cbmm_max_D=6, allow_mask=True, force_lead=None,
               positive_saliency_only=False, regular_share=True,
-              stable_only=False):
+              stable_only=False, force_aligner=False):
     """Generic generator of a mixture-model fit.
 
     profile 'regular': clustered data in general position, double precision,
@@ -421,7 +421,7 @@ def draw_case(d, kinds=None, *, degenerate=False, general_position=False,
         init_kinds = tuple(k for k in init_kinds if k != 'onehot') or init_kinds
     case.meta['profile'] = profile
     want_aligner = (allow_aligner and options and kind in COMPLEX_KINDS
-                    and force_lead is None and d.int(0, 3) == 0)
+                    and force_lead is None and (force_aligner or d.int(0, 3) == 0))
     if integ:
         lead = (d.int(1, 5),)
     elif force_lead is not None:
@@ -466,6 +466,21 @@ def draw_case(d, kinds=None, *, degenerate=False, general_position=False,
         y = y * 10.0 ** scale_exp
     if single:
         y = y.astype(np.complex64 if complex_ else np.float32)
+    if want_aligner and (force_aligner or d.bool()):
+        # a scene with a frequency permutation problem: the same activity over
+        # time in every bin, per-bin prototypes; the start below is the blurred
+        # truth with the class order scrambled per bin
+        lab_t = rng.permutation(np.arange(N) % K)
+        protos = gen.unit(gen.cnormal(rng, (lead_[0], K, D)))
+        y = protos[:, lab_t, :] * gen.cnormal(rng, (lead_[0], N, 1)) + \
+            spread * 0.3 * gen.cnormal(rng, (lead_[0], N, D))
+        labels = np.broadcast_to(lab_t, (lead_[0], N)).copy()
+        case.meta['permutation_problem'] = True
+        pattern = 'none'
+        scale_exp = 0
+        case.meta.update(data=pattern, scale_exp=0)
+        if single:
+            y = y.astype(np.complex64)
     case.y = y
     case.labels = labels
     if integ:
@@ -493,6 +508,12 @@ def draw_case(d, kinds=None, *, degenerate=False, general_position=False,
             # singleton leading axes are broadcast by the trainer
             case.init = case.init[(0,) * len(lead_)][(None,) * len(lead_)]
             ik += '+singleton-lead'
+    if case.meta.get('permutation_problem') and K >= 2:
+        onehot = (labels[0][None, :] == np.arange(K)[:, None]).astype(float)
+        soft = 0.8 * onehot + 0.2 * (1 - onehot) / (K - 1)
+        case.init = np.stack([soft[rng.permutation(K)] for _ in range(lead_[0])])
+        case.np_seed = 0
+        ik = 'permuted-blurred-truth'
     case.meta['init'] = ik
     case.iterations = d.int(1, max_iterations)
 
